@@ -33,10 +33,34 @@ type Flags struct {
 	Stub                  bool
 	IgnoreMissingParams   bool
 	IgnoreMissingServices bool
+	// Spelling: how the switches are written. 0: bare (`--flag` when set, absent otherwise); 1: every switch explicitly
+	// (`--flag=true` / `--flag=false`); 2: every switch twice, first with the opposite value (the last occurrence counts);
+	// 3: set switches bare, unset ones as `--flag=false`, and all of them in front of -i / -o.
+	Spelling int `json:",omitempty"`
 }
 
 func (f Flags) Args() []string {
 	var a []string
+	if f.Spelling != 0 {
+		for _, sw := range []struct {
+			name string
+			on   bool
+		}{{"quiet", f.Quiet}, {"stub", f.Stub}, {"ignore-missing-params", f.IgnoreMissingParams}, {"ignore-missing-services", f.IgnoreMissingServices}} {
+			switch f.Spelling {
+			case 1:
+				a = append(a, fmt.Sprintf("--%s=%v", sw.name, sw.on))
+			case 2:
+				a = append(a, fmt.Sprintf("--%s=%v", sw.name, !sw.on), fmt.Sprintf("--%s=%v", sw.name, sw.on))
+			default:
+				if sw.on {
+					a = append(a, "--"+sw.name)
+				} else {
+					a = append(a, "--"+sw.name+"=false")
+				}
+			}
+		}
+		return a
+	}
 	if f.Quiet {
 		a = append(a, "--quiet")
 	}
@@ -57,11 +81,16 @@ func (f Flags) String() string { return strings.Join(f.Args(), " ") }
 // BuildArgs assembles the argument list for `build`.
 func BuildArgs(patterns []string, out string, f Flags) []string {
 	var a []string
+	if f.Spelling == 3 {
+		a = append(a, f.Args()...)
+	}
 	for _, p := range patterns {
 		a = append(a, "-i", p)
 	}
 	a = append(a, "-o", out)
-	a = append(a, f.Args()...)
+	if f.Spelling != 3 {
+		a = append(a, f.Args()...)
+	}
 	return a
 }
 
